@@ -669,13 +669,13 @@ class AggregateBase(UnitsManaged, Saveable, OpenSystem):
             # 1 exciton -> 2 exciton band transitions
             elif (self.which_band[eli] == 1) and (self.which_band[elf] == 2):
                 # this simulates the term  g_ff + g_ee - 2Re g_fe
-                return (self.Dr[Ni, Ni]**2 + self.Dr[Nf, Nf]
-                        - 2.0*self.Dr[Nf, Ni])
+                return (self.Dr[Ni, Ni]**2 + self.Dr[Nf, Nf]**2
+                        - 2.0*(self.Dr[Nf, Ni]**2))
 
             elif (self.which_band[eli] == 2) and (self.which_band[elf] == 1):
                 # this simulates the term  g_ff + g_ee - 2Re g_fe
-                return (self.Dr[Ni, Ni]**2 + self.Dr[Nf, Nf]
-                        - 2.0*self.Dr[Nf, Ni])
+                return (self.Dr[Ni, Ni]**2 + self.Dr[Nf, Nf]**2
+                        - 2.0*(self.Dr[Nf, Ni]**2))
 
             else:
                 return -1.0
@@ -2288,6 +2288,7 @@ class AggregateBase(UnitsManaged, Saveable, OpenSystem):
                 for aa_2x in range(N1b, N2b):
                     for alpha in range(N1b):
                         self.Wd[aa_2x, alpha] = 0.0
+                        self.Dr[aa_2x, alpha] = 0.0
                         for nn_2x in range(N1b, N2b):
                             for k_1x in range(N1b):
                                 st_n = self.twoex_indx[nn_2x, 0]
@@ -2297,9 +2298,15 @@ class AggregateBase(UnitsManaged, Saveable, OpenSystem):
                                     ((self.Wd[st_n, st_n]**2)*delta[st_n, k_1x] +
                                      (self.Wd[st_m, st_m]**2)*delta[st_m, k_1x])*\
                                      (SS[nn_2x, aa_2x]**2)*(SS[k_1x, alpha]**2)
+                                self.Dr[aa_2x, alpha] += \
+                                    ((self.Dr[st_n, st_n]**2)*delta[st_n, k_1x] +
+                                     (self.Dr[st_m, st_m]**2)*delta[st_m, k_1x])*\
+                                     (SS[nn_2x, aa_2x]**2)*(SS[k_1x, alpha]**2)
     
                 self.Wd[N1b:N2b,0:N1b] = numpy.sqrt(self.Wd[N1b:N2b,0:N1b])
                 self.Wd[0:N1b,N1b:N2b] = numpy.transpose(self.Wd[N1b:N2b,0:N1b])
+                self.Dr[N1b:N2b,0:N1b] = numpy.sqrt(self.Dr[N1b:N2b,0:N1b])
+                self.Dr[0:N1b,N1b:N2b] = numpy.transpose(self.Dr[N1b:N2b,0:N1b])
     
                 #
                 # Transform line shapes for 1->2 transitions
@@ -2315,11 +2322,16 @@ class AggregateBase(UnitsManaged, Saveable, OpenSystem):
                         Wd_a[aa] += (SS[nn, aa]**2)*\
                                     ((self.Wd[st_n, st_n]**2)*kappa[st_n, aa]
                                     +(self.Wd[st_m, st_m]**2)*kappa[st_m, aa])
+                        Dr_a[aa] += (SS[nn, aa]**2)*\
+                                    ((self.Dr[st_n, st_n]**2)*kappa[st_n, aa]
+                                    +(self.Dr[st_m, st_m]**2)*kappa[st_m, aa])
                              
                         
                 W_aux = numpy.diag(numpy.sqrt(Wd_a))
                 #W_aux = numpy.diag(numpy.sqrt(Wd_b))
                 self.Wd[N1b:N2b,N1b:N2b] = W_aux[N1b:N2b,N1b:N2b]
+                D_aux = numpy.diag(numpy.sqrt(Dr_a))
+                self.Dr[N1b:N2b,N1b:N2b] = D_aux[N1b:N2b,N1b:N2b]
     
             #
             # Transform line shapes for 0->1 transitions
